@@ -299,6 +299,22 @@ def paveba_same_round_blocker(algo="PaVeBaPartialGP-rect", variant=0):
     return _spec_from_boxes(algo, Y, [[p, q], [p, q], late, late, late], e, "same-round-blocker", True)
 
 
+def paveba_unequal_alpha(algo="PaVeBa", variant=0):
+    """PaVeBa family with ellipsoids under a cone whose facets have DIFFERENT allowances alpha_n (the orthant written with rows
+    of unequal length, W = [[1, 0], [0, 2]]: alpha = (1, 2)): design 0 can be eps-covered by design 1 on facet 1 only when
+    facet 1 is asked for ITS OWN slack eps * alpha_1 (balls of radius 3/16, centres equal in objective 1, far apart in
+    objective 2) — so design 0 must stay in S while design 1 is active or useful."""
+    sh = [0.0, 0.5, -1.0][variant % 3]
+    W = [[1, 0], [0, 2]]
+    Y = [[0.0 + sh, 0.0 + sh], [0.0 + sh, 2.0 + sh]]
+    X = [[0.0, 0.0], [0.25, 0.0]]
+    r = 0.1875
+    means = [Y] * 4; hws = [[[r, r], [r, r]]] * 4
+    return {"algo": algo, "cone": "diag-scaled2", "W": W, "X": X, "Y": Y, "eps": 0.25, "valid_by_construction": True,
+            "style": "unequal-alpha", "means": means, "hw": hws, "batch": 1, "contraction": 1.0, "costs": None,
+            "budget": None, "auer_empirical": False, "no_shrink": True}
+
+
 def vogp_acute3_directed(variant=0):
     """valid VOGP history with three objectives under the acute cone acute3 (rows (1,-2,4), (4,1,-2), (-2,4,1)): in round 0
     the truth of design 0 sits at the (upper, lower, upper) corner of its rectangle and the truth of design 1 at the
